@@ -73,7 +73,7 @@ def valid_inputs(t, depth=0):
         elif n == "ID":
             out += [('"id"', "id"), ("7", 7)]
         else:
-            out += [('"c"', "c"), ("1", 1)]
+            out += [('"c"', "c"), ("1", 1), ("{a: [1, {b: null}]}", {"a": [1, {"b": None}]})]
     out.append(("null", None))
     return out
 
@@ -252,6 +252,11 @@ class DocGen:
                 menu.append("{" + f0 + ": $" + aname + "_" + f0 + "}")
                 if obj_t is not base:
                     menu.append("[{" + f0 + ": $" + aname + "_" + f0 + "}]")
+            Scalar = self.K[6]
+            if isinstance(obj_t, Scalar) and obj_t.name not in ("Int", "Float", "String", "Boolean", "ID"):
+                # custom scalar: variables embedded in untyped object / list literals
+                menu.append("{a: $" + aname + "_any, b: [5]}")
+                menu.append("[$" + aname + "_any, 1]")
             if self.ill:
                 menu += invalid_literals(a.type)
                 if required:
@@ -260,9 +265,13 @@ class DocGen:
             if ch is None:
                 continue
             if "$" in ch:
-                vname = ch[ch.index("$") + 1:].rstrip("]} ")
+                import re as _re
+
+                vname = _re.search(r"\$([_A-Za-z0-9]+)", ch).group(1)
                 if vname == aname:
                     vt = a.type
+                elif vname.endswith("_any"):
+                    vt = self.schema.type_map["Int"]
                 elif vname.endswith("_item"):
                     vt = base.of_type
                 else:
